@@ -8,7 +8,7 @@ from props import mmulti
 from common import xr, xvec, from_xr, from_xvec, num_close
 
 ID = "C05"
-TARGETS = ["Proofs.C05", "Proofs.C05Rank", "Proofs.GenEq.Det"]
+TARGETS = ["Proofs.C05", "Proofs.C05Rank", "Proofs.C05Cond", "Proofs.GenEq.Det"]
 GEN_PREFIXES = ["det."]
 TRANSLATED = ["mae", "bias", "diff", "ratio", "ef", "stderror", "obsstddev", "fcststddev", "rmse", "rmsf", "cmae",
               "nsec", "nnsec", "alphaindex", "dmb", "mbias", "derror"]
@@ -27,7 +27,11 @@ RANK_THEOREMS = [
     "C05_leps_def_partial", "C05_leps_spec_perfect", "C05_n0_eq", "C05_symm", "C05_rank_invariant",
     "rankdata_fins", "kendall_partition", "qfcst_fins", "TrEx_lawful", "TrEx_pos"]
 AGG_METRICS = ["mae", "bias", "diff", "ratio", "rmse", "rmsf", "cmae"]
-AGGS = ["mean", "sum", "min", "max", "meanabs", "absmean", "range", "variance", "std", "median"]
+AGGS = ["mean", "sum", "min", "max", "meanabs", "absmean", "range", "variance", "std", "median",
+        "count", "iqr", "change", "abschange", "0.25", "0.75", "0.5"]
+# quantile levels are dyadic: on the 1/8 grid NumPy's interpolation is then exact (with 0.3 the virtual index
+# 6 * 0.3 = 1.7999999999999998 turns an exact 0 / 0 of `ratio` into 1 — rounding, outside the exact-arithmetic model)
+SINGLE_AGGS = ["mean", "median", "sum", "min", "max", "count", "iqr", "change", "abschange", "0.25", "0.75", "range", "std"]
 THEOREMS = {
     "Proofs.C05": ["VerifModel.C05." + t for t in [
         "C05_missing_pair_dropped", "C05_no_pairs_nan", "mean_zeroPreserving", "C05_perfect_mae",
@@ -38,6 +42,9 @@ THEOREMS = {
         "C05_selectWithin", "C05_fromfield_obs_by_fcst", "C05_fromfield_fcst_by_obs", "C05_fromfield_empty_bin",
         "C05_obsfcst_by_obs"]],
     "Proofs.C05Rank": ["VerifModel.C05." + t for t in RANK_THEOREMS],
+    "Proofs.C05Cond": ["VerifModel.C05." + t for t in [
+        "zip_self_filter", "selectWithin_self", "C05_conditional_def", "C05_xconditional_def", "C05_count_def",
+        "C05_fromfield_aux", "C05_fromfield_aux_by_axis"]],
     "Proofs.GenEq.Det": ["VerifModel.GenEq.Det.%s_eq" % n for n in TRANSLATED + TRANSLATED_LIB],
 }
 TRUSTED_BASE = [
@@ -65,7 +72,12 @@ ASSUMPTIONS = ["obs and fcst have equal length", "aggregator-parametrised perfec
                "perfect-score theorems of corr/rankcorr/kendallcorr/kge: the computed root of the sum of squares "
                "is exact or rounded down (then the clip to [-1,1] gives exactly 1); otherwise 1 - O(eps)"]
 RULE = ("metric.det: obs/fcst vectors of length 0..12 on a 1/8 grid (ties, constants, negatives, zeros, NaNs, "
-        "obs=fcst) x 22 modelled metrics x aggregators; metric.small: exhaustive over all pairs of vectors in "
+        "obs=fcst) x 22 modelled metrics x aggregators (for the metrics that take -agg: mean sum min max meanabs absmean "
+        "range variance std median count iqr change abschange and the dyadic quantile levels 0.25 0.5 0.75 — the C15 aggregator "
+        "models reused, Driver/Det.lean aggByName); metric.single additionally draws count iqr change abschange 0.25 "
+        "0.75 range std for obs / fcst / mae / bias through the real compute_single (oracle: c05._agg_py, NumPy's "
+        "documented linear percentile); metric.single.aux: FromField(Other(x), aux = none / obs / fcst) under -x no / obs "
+        "/ fcst with the same aggregators, x / obs / fcst independently missing; metric.small: exhaustive over all pairs of vectors in "
         "{-1,0,1,2}^n, n<=2 (quick) / n<=3 (thorough); metric.rank: rankcorr, kendallcorr, leps, corr, kge on "
         "rank-shaped data (1-3 distinct values, constant series, n = 1, 2, 3, permutations, monotone / reversed "
         "forecasts, forecasts equal to observed values); metric.decimal: realistic decimals (tolerance); "
@@ -223,8 +235,14 @@ def gen_ops(tier, rng):
             hi = float("inf")
         for m in rng.sample(singles, 4):
             ax = rng.choice(["obs", "fcst", "no"]) if m != "within" else "no"
-            agg = rng.choice(["mean", "median", "sum", "min", "max"]) if m in ("obs", "fcst", "mae", "bias") else "mean"
+            agg = rng.choice(SINGLE_AGGS) if m in ("obs", "fcst", "mae", "bias") else "mean"
             yield "metric.single", "single %s %s %s %s:%s:%d:%d %s %s" % (m, agg, ax, xr(lo), xr(hi), le, ue, xvec(obs), xvec(fcst))
+            if rng.random() < 0.5:
+                # FromField with a value field other than obs / fcst (verif.field.Other) and an aux field
+                xs = [rng.choice(GRID) if rng.random() > 0.15 else float("nan") for _ in obs]
+                yield "metric.single.aux", "ffaux %s %s %s:%s:%d:%d %s %s %s %s" % (
+                    rng.choice(SINGLE_AGGS), ax, xr(lo), xr(hi), le, ue, rng.choice(["none", "obs", "fcst"]),
+                    xvec(xs), xvec(obs), xvec(fcst))
     # several metrics one after the other on ONE Data object (what a command line with one file and several
     # scores does): every score is a function of the data, whatever was computed before
     pool = [m for m in TRANSLATED + HAND if m != "rmsf"]
@@ -282,6 +300,23 @@ def impl(op):
                 return "EMPTY"
             r = float(r)
             return xr(r)
+        if a[0] == "ffaux":
+            import verif.axis
+            import verif.interval
+            import verif.field
+            import datagen as dg
+            xs, obs, fcst = from_xvec(a[5]), from_xvec(a[6]), from_xvec(a[7])
+            n = len(obs)
+            I = {"times": [0.0], "leads": [float(k) for k in range(n)], "locs": [(1.0, 50.0, 10.0, 0.0)],
+                 "fields": {"obs": np.array(obs, float).reshape(1, n, 1), "fcst": np.array(fcst, float).reshape(1, n, 1),
+                            "x": np.array(xs, float).reshape(1, n, 1)}}
+            data = dg.build_data(dg.DS([I], {}))
+            aux = {"none": None, "obs": verif.field.Obs(), "fcst": verif.field.Fcst()}[a[4]]
+            m = verif.metric.FromField(verif.field.Other("x"), aux=aux)
+            m.aggregator = verif.aggregator.get(a[1])
+            lo, hi, le, ue = a[3].split(":")
+            iv = verif.interval.Interval(from_xr(lo), from_xr(hi), le == "1", ue == "1")
+            return xr(float(m.compute_single(data, 0, verif.axis.get(a[2]), None, iv)))
         if a[0] == "seq":
             import verif.axis
             import datagen as dg
@@ -344,7 +379,7 @@ def cmp(op, impl_out, model_out):
         return True
     if a[0] == "det" and a[1] == "leps" and _tied_obs(a):
         return True      # np.argsort's order of tied observations is unspecified (not stable): outside the model
-    if a[0] == "single":
+    if a[0] in ("single", "ffaux"):
         return impl_out == model_out or _close(impl_out, model_out, 1e-9)
     if a[0] == "seq":
         it, mt, items = impl_out.split(" "), model_out.split(" "), _seq_items(op)
@@ -400,8 +435,17 @@ def _single_oracle(a):
     return name, agg, rows, inside
 
 
+def _percentile_py(v, q):
+    """NumPy's default ('linear', Hyndman-Fan 7) percentile, from its documentation: virtual index (n-1)q"""
+    s = sorted(v)
+    pos = (len(s) - 1) * q
+    lo = int(math.floor(pos))
+    hi = min(lo + 1, len(s) - 1)
+    return s[lo] + (s[hi] - s[lo]) * (pos - lo)
+
+
 def _agg_py(agg, v):
-    v = sorted(v) if agg == "median" else v
+    """the documented statistic (verif --help, -agg) of a non-empty list of numbers"""
     if agg == "mean":
         return sum(v) / len(v)
     if agg == "sum":
@@ -410,8 +454,22 @@ def _agg_py(agg, v):
         return min(v)
     if agg == "max":
         return max(v)
-    n = len(v)
-    return v[n // 2] if n % 2 else (v[n // 2 - 1] + v[n // 2]) / 2.0
+    if agg == "range":
+        return max(v) - min(v)
+    if agg == "count":
+        return float(len(v))
+    if agg == "change":
+        return v[-1] - v[0]
+    if agg == "abschange":
+        return abs(v[-1] - v[0])
+    if agg == "iqr":
+        return _percentile_py(v, 0.75) - _percentile_py(v, 0.25)
+    if agg == "std":
+        mu = sum(v) / len(v)
+        return math.sqrt(sum((x - mu) ** 2 for x in v) / len(v))
+    if agg == "median":
+        return _percentile_py(v, 0.5)
+    return _percentile_py(v, float(agg))
 
 
 def _avg_ranks(v):
@@ -475,6 +533,33 @@ def judge(op, impl_out, spec_out):
                         "%s computed as score %d of the sequence %s on one Data object gives %s, computed on its own %s "
                         "(obs=%s fcst=%s)" % (item.split(" ")[1], k + 1, a[3], tok, alone, a[1], a[2]))
         return None
+    if a[0] == "ffaux":
+        # documented: the aggregate of the x values of the cases where x, the subsetting field (under -x obs / fcst)
+        # and the aux field are all present and the subsetting value lies in the interval
+        if impl_out.startswith("EXC:") or impl_out.startswith("EXIT:"):
+            return ({"kind": "exception", "metric": "fromfield-aux", "layer": "single"}, "%s ended in %s" % (op[:200], impl_out))
+        agg, ax, auxk = a[1], a[2], a[4]
+        lo, hi, le, ue = a[3].split(":")
+        lo, hi, le, ue = from_xr(lo), from_xr(hi), le == "1", ue == "1"
+        fin = lambda x: not (math.isnan(x) or math.isinf(x))
+        rows = []
+        for x, o, f in zip(from_xvec(a[5]), from_xvec(a[6]), from_xvec(a[7])):
+            need = [x] + ([o] if "obs" in (ax, auxk) else []) + ([f] if "fcst" in (ax, auxk) else [])
+            if not all(fin(v) for v in need):
+                continue
+            by = o if ax == "obs" else (f if ax == "fcst" else None)
+            if by is None or ((by > lo or (le and by == lo)) and (by < hi or (ue and by == hi))):
+                rows.append(x)
+        v = from_xr(impl_out)
+        if rows:
+            want = _agg_py(agg, rows)
+        else:
+            want = 0.0 if ((agg == "sum" and ax != "no") or agg == "count") else float("nan")
+        if not num_close(v, want, 1e-9, 1e-12):
+            return ({"kind": "single-selection", "metric": "fromfield-aux", "agg": agg},
+                    "FromField(Other, aux=%s) -agg %s -x %s gives %s, the documented statistic of the qualifying cases "
+                    "(%s) is %s" % (auxk, agg, ax, impl_out, xvec(rows), want))
+        return None
     if a[0] == "single":
         name, agg, rows, inside = _single_oracle(a)
         if impl_out.startswith("EXC:") or impl_out.startswith("EXIT:"):
@@ -487,7 +572,7 @@ def judge(op, impl_out, spec_out):
         want = None
         if not rows:
             # nothing selected: undefined statistics must be NaN; a sum over nothing is 0 (FromField only)
-            want = 0.0 if (agg == "sum" and name in ("obs", "fcst") and a[3] != "no") else float("nan")
+            want = 0.0 if (name in ("obs", "fcst") and ((agg == "sum" and a[3] != "no") or agg == "count")) else float("nan")
         elif name in ("obs", "fcst"):
             want = _agg_py(agg, [r[0] if name == "obs" else r[1] for r in rows])
         elif name == "mae":
